@@ -192,7 +192,7 @@ def run_tlc(module, cfg, *, workers=None, simulate=None, depth=None, timeout=600
     if m:
         res.outdeg_max = int(m.group(1))
     bad = None
-    if "is violated" in out or "Invariant" in out and "violated" in out:
+    if "is violated" in out or ("Invariant" in out and "violated" in out) or ("Postcondition" in out and "is false" in out):
         i = out.find("Error:")
         res.violation = out[i:i + 6000]
         res.ok = False
